@@ -68,6 +68,14 @@ RECIPES = [
     ("a1-timed", lambda b, p: b.activity(p + ":a1", datetime.datetime(2020, 1, 1))),
     ("col-hashed-then-typed", lambda b, p: _hashed_then(b.entity(p + ":c1"), lambda r: r.add_asserted_type(QualifiedName(Namespace("prov", "http://www.w3.org/ns/prov#"), "Collection")))),
     ("col", lambda b, p: b.collection(p + ":c1")),
+    # values that differ but have the same Python hash (CPython: hash(-1) == hash(-2), hash(n) == hash(n + 2**61 - 1)):
+    # equality must look at the values, not at their hashes
+    ("e1-neg1", lambda b, p: b.entity(p + ":e1", {p + ":a": -1})),
+    ("e1-neg2", lambda b, p: b.entity(p + ":e1", {p + ":a": -2})),
+    ("e1-zero", lambda b, p: b.entity(p + ":e1", {p + ":a": 0})),
+    ("e1-m61", lambda b, p: b.entity(p + ":e1", {p + ":a": 2 ** 61 - 1})),
+    ("gen-neg1", lambda b, p: b.generation(p + ":e1", p + ":a1", None, None, {p + ":a": -1})),
+    ("gen-neg2", lambda b, p: b.generation(p + ":e1", p + ":a1", None, None, {p + ":a": -2})),
 ]
 
 
@@ -103,7 +111,9 @@ def specs(rnd, budget):
     for recs in singles + pairs:
         for prefix in ("ex", "other"):
             out.append((prefix, recs, []))
-    must = [("ex", [n], []) for n in ("mention0", "spec", "a1-hashed-then-timed", "a1-timed", "col-hashed-then-typed", "col")]
+    must = [("ex", [n], []) for n in ("mention0", "spec", "a1-hashed-then-timed", "a1-timed", "col-hashed-then-typed", "col",
+                                      "e1-neg1", "e1-neg2", "e1-zero", "e1-m61", "gen-neg1", "gen-neg2")]
+    must += [("ex", ["e2"], [("b1", [n])]) for n in ("e1-neg1", "e1-neg2")]
     for recs in singles[:8]:
         for brecs in ([], ["e1"], ["gen"], ["gen-id"]):
             out.append(("ex", recs, [("b1", brecs)]))
@@ -193,7 +203,7 @@ def main():
     n = 0
     pairs = list(itertools.product(sp, repeat=2))
     rnd.shuffle(pairs)
-    first = list(itertools.product(sp[:6], repeat=2))  # the hand-picked specs are always compared with each other
+    first = list(itertools.product(sp[:14], repeat=2))  # the hand-picked specs are always compared with each other
     for sa, sb in first + pairs[: 3000 if a.tier == "quick" else 40000]:
         n += 1
         check_pair(sa, sb, failures)
